@@ -211,7 +211,7 @@ from mypy.nodes import (
 )
 from mypy.operators import flip_ops, int_op_to_method, neg_ops
 from mypy.options import PRECISE_TUPLE_TYPES, Options
-from mypy.patterns import AsPattern, StarredPattern
+from mypy.patterns import AsPattern, MappingPattern, StarredPattern
 from mypy.plugin import Plugin
 from mypy.plugins import dataclasses as dataclasses_plugin
 from mypy.scope import Scope
@@ -9894,6 +9894,20 @@ class VarAssignVisitor(TraverserVisitor):
         e.target.accept(self)
         self.lvalue = False
         e.value.accept(self)
+
+    def visit_operator_assignment_stmt(self, s: OperatorAssignmentStmt) -> None:
+        # `x += y` can re-bind x to a value of another type (e.g. through __radd__).
+        self.lvalue = True
+        s.lvalue.accept(self)
+        self.lvalue = False
+        s.rvalue.accept(self)
+
+    def visit_mapping_pattern(self, p: MappingPattern) -> None:
+        super().visit_mapping_pattern(p)
+        if p.rest is not None:
+            self.lvalue = True
+            p.rest.accept(self)
+            self.lvalue = False
 
     def visit_as_pattern(self, p: AsPattern) -> None:
         if p.pattern is not None:
